@@ -16,10 +16,11 @@ using namespace vf;
 
 // guarded hook in /repo/src/fitter/nnls.c (-DPHOTOSPLINE_VERIF): a block solver left its loop at the iteration limit
 extern "C" int photospline_verif_nnls_cap_hit;
+extern "C" long photospline_verif_multirow_updates;
 
 namespace {
 
-struct Sys { int n; std::vector<double> A, b; std::vector<double> M; int mrows = 0; std::vector<double> yls; std::string cls; bool constructed = false; std::vector<double> x0; };
+struct Sys { int n; std::vector<double> A, b; std::vector<double> M; int mrows = 0; std::vector<double> yls; std::string cls; bool constructed = false; std::vector<double> x0; std::string cls_extra; };
 
 cholmod_sparse* to_sparse(const std::vector<double>& A, int nr, int nc, cholmod_common* c) {
   size_t nz = 0; for (double v : A) if (v != 0) nz++;
@@ -32,14 +33,21 @@ cholmod_sparse* to_sparse(const std::vector<double>& A, int nr, int nc, cholmod_
   return s;
 }
 
-Sys gen_system(Chooser& ch, bool small) {
+// mode 0: small (enumerable), 1: large sparse banded, 2: medium dense (where modify_factor chooses row updates of
+// several rows at once over a refactorization: fl / (9 * threads * rows * modfl) > 1 needs n of a few dozen, dense)
+Sys gen_system(Chooser& ch, int mode) {
   Sys s;
+  bool small = mode == 0;
   int kind = (int)ch.draw(0, 3);  // 0 dense random, 1 sparse banded, 2 badly scaled, 3 degenerate/tied (constructed)
-  s.n = small ? 1 + (int)ch.draw(0, 9) : 20 + (int)ch.draw(0, 180);
+  s.n = small ? 1 + (int)ch.draw(0, 9) : (mode == 1 ? 20 + (int)ch.draw(0, 180) : 40 + (int)ch.draw(0, 260));
   int n = s.n;
-  s.mrows = n + (int)ch.draw(0, 4);
+  s.mrows = n + (int)ch.draw(0, mode == 2 ? n / 2 : 4);
   s.M.assign((size_t)s.mrows * n, 0.0);
-  bool banded = !small || kind == 1;
+  bool banded = mode == 1 || (small && kind == 1);
+  if (mode == 2) {  // entries from a drawn salt (a draw per entry would not fit the word budget of an isolated case)
+    uint64_t salt = ch.draw(0, 0xffffff);
+    for (int i = 0; i < s.mrows; i++) for (int j = 0; j < n; j++) { uint64_t h = mix64(salt ^ mix64((uint64_t)i * 1000 + j)); if (h % 4 == 0) continue; s.M[(size_t)i * n + j] = (double)((int)((h >> 8) % 9) - 4) / 2.0; }
+  } else
   for (int i = 0; i < s.mrows; i++) for (int j = 0; j < n; j++) {
     if (banded && std::abs(i - j) > 2) continue;
     if (!banded && ch.coin(1, 4)) continue;
@@ -57,15 +65,27 @@ Sys gen_system(Chooser& ch, bool small) {
   for (int j = 0; j < n; j++) Mx[(size_t)(s.mrows + j) * n + j] = sqrt(delta) * sc[j];
   s.M = Mx; s.mrows = mr;
   s.A.assign((size_t)n * n, 0.0);
+  if (mode == 2) {  // row-wise outer products (entries are multiples of 1/4 and of sqrt(delta)^2: the double sums are exact enough; only the normal-equation solvers see these systems)
+    for (int k = 0; k < mr; k++) { std::vector<int> nzc; for (int j = 0; j < n; j++) if (s.M[(size_t)k * n + j] != 0) nzc.push_back(j); for (int a : nzc) for (int b2 : nzc) s.A[(size_t)a * n + b2] += s.M[(size_t)k * n + a] * s.M[(size_t)k * n + b2]; }
+  } else
   for (int i = 0; i < n; i++) for (int j = 0; j < n; j++) { LD a = 0; for (int k = 0; k < mr; k++) a += (LD)s.M[(size_t)k * n + i] * s.M[(size_t)k * n + j]; s.A[(size_t)i * n + j] = (double)a; }
   s.b.resize(n);
   if (kind == 3 || !small) {
     // constructed optimum with exactly-zero and tied components
     s.constructed = true; s.x0.assign(n, 0.0);
     std::vector<double> g0(n, 0.0);
-    for (int i = 0; i < n; i++) { int r = (int)ch.draw(0, 3); if (r == 0) s.x0[i] = (double)(1 + ch.draw(0, 7)) / 4.0; else if (r == 1) g0[i] = (double)(1 + ch.draw(0, 7)) / 8.0; /* r >= 2: x0 = g0 = 0, degenerate */ }
+    if (mode != 2) {
+      for (int i = 0; i < n; i++) { int r = (int)ch.draw(0, 3); if (r == 0) s.x0[i] = (double)(1 + ch.draw(0, 7)) / 4.0; else if (r == 1) g0[i] = (double)(1 + ch.draw(0, 7)) / 8.0; /* r >= 2: x0 = g0 = 0, degenerate */ }
+    } else {
+      // share of positive components 1/4, 1/2 or 7/8: a large free set is what makes modify_factor prefer row
+      // updates of several rows over a refactorization
+      static const int pos8s[] = {2, 4, 7};
+      int pos8 = pos8s[ch.draw(0, 2)];
+      for (int i = 0; i < n; i++) { int r = (int)ch.draw(0, 7); if (r < pos8) s.x0[i] = (double)(1 + ch.draw(0, 7)) / 4.0; else if ((r - pos8) % 2 == 0) g0[i] = (double)(1 + ch.draw(0, 7)) / 8.0; /* else: x0 = g0 = 0, degenerate */ }
+      s.cls_extra = "positive_share:" + std::to_string(pos8) + "/8";
+    }
     for (int i = 0; i < n; i++) { LD a = 0; for (int j = 0; j < n; j++) a += (LD)s.A[(size_t)i * n + j] * s.x0[j]; s.b[i] = (double)(a - (LD)g0[i]); }   // gradient A x0 - b = g0
-    s.cls = small ? "degenerate_constructed" : "large_sparse_constructed";
+    s.cls = small ? "degenerate_constructed" : (mode == 1 ? "large_sparse_constructed" : "medium_dense_constructed");
   } else {
     for (auto& v : s.b) v = (double)ch.range(-8, 8) / 2.0;
     if (kind == 2) for (int i = 0; i < n; i++) s.b[i] *= sc[i];
@@ -104,7 +124,7 @@ std::vector<double> run_solver(int which, const Sys& s, cholmod_common* c) {
   for (int i = 0; i < n; i++) ((double*)b->x)[i] = s.b[i];
   cholmod_dense* x = nullptr;
   switch (which) {
-    case 0: x = nnls_normal_block3(A, b, 0, c); break;
+    case 0: x = nnls_normal_block3(A, b, getenv("VF_DEBUG_C11") ? 1 : 0, c); break;
     case 1: x = nnls_normal_block(A, b, 0, c); break;
     case 2: x = nnls_normal_block_updown(A, b, 0, c); break;
     case 3: x = nnls_lawson_hanson(A, b, 0.0, 0, 20 * n + 50, 0, 1, 0, c); break;
@@ -124,13 +144,15 @@ std::vector<double> run_solver(int which, const Sys& s, cholmod_common* c) {
 
 static const char* kSolverNames[] = {"block3", "block", "block_updown", "lawson_hanson_normal", "lawson_hanson_lsq"};
 
-CaseResult body(Chooser& ch, Stats* st, bool small) {
+CaseResult body(Chooser& ch, Stats* st, int mode) {
   CaseResult r;
-  Sys s = gen_system(ch, small);
+  bool small = mode == 0;
+  Sys s = gen_system(ch, mode);
+  int nthreads = mode == 2 ? 1 + (int)ch.draw(0, 1) : 2;
   int which = (int)ch.draw(0, small ? 4 : 2);  // the SPQR-based Lawson-Hanson is only run on small systems
   int n = s.n;
   std::ostringstream js;
-  js << "{\"solver\":" << jstr(kSolverNames[which]) << ",\"n\":" << n << ",\"class\":" << jstr(s.cls);
+  js << "{\"solver\":" << jstr(kSolverNames[which]) << ",\"n\":" << n << ",\"class\":" << jstr(s.cls) << ",\"threads\":" << nthreads;
   if (n <= 6) { js << ",\"A\":" << jarr(s.A) << ",\"b\":" << jarr(s.b); }
   js << "}";
   r.json = js.str();
@@ -140,7 +162,8 @@ CaseResult body(Chooser& ch, Stats* st, bool small) {
   else if (!enumerate_optimum(s, xstar)) { r.discard = true; return r; }
   // the tolerance is tied to the conditioning; systems beyond cond 1e8 are outside the domain (counted)
   LD cond = 1;
-  if (n <= 60) {
+  bool have_cond = n <= 60 || mode == 2;
+  if (have_cond) {
     std::vector<LD> A0(s.A.begin(), s.A.end()), L0;
     if (!cholesky_ld(A0, n, L0)) { r.discard = true; return r; }
     cond = cond_estimate(A0, L0, n);
@@ -150,8 +173,11 @@ CaseResult body(Chooser& ch, Stats* st, bool small) {
   if (which == 4) { for (double v : s.yls) ynorm = std::max<LD>(ynorm, fabs(v)); for (double v : s.M) mnorm = std::max<LD>(mnorm, fabs(v)); }
   // solve
   cholmod_common c; cholmod_l_start(&c);
-  photospline_verif_nnls_cap_hit = 0;
+  photospline_verif_nnls_cap_hit = 0; photospline_verif_multirow_updates = 0;
+  setenv("OMP_NUM_THREADS", std::to_string(nthreads).c_str(), 1);
   std::vector<double> x = run_solver(which, s, &c);
+  if (getenv("VF_DEBUG_C11")) fprintf(stderr, "DBG n=%d which=%d threads=%d multirow=%ld\n", n, which, nthreads, photospline_verif_multirow_updates);
+  if (st && photospline_verif_multirow_updates > 0) st->label("factor:multi_row_update_path");
   cholmod_l_finish(&c);
   // Known findings C11-*-iteration-cap: the block solvers can cycle and stop at their iteration limit with a
   // non-optimal (block/block_updown: even infeasible) vector.  Such solves are excluded and counted.
@@ -186,16 +212,16 @@ CaseResult body(Chooser& ch, Stats* st, bool small) {
     // agreement with the unique minimiser
     std::vector<LD> A(s.A.begin(), s.A.end()), L;
     LD lmin = 1;
-    if (n <= 60 && cholesky_ld(A, n, L)) { LD cond = cond_estimate(A, L, n); LD lmax = 0; for (int i = 0; i < n; i++) { LD rs = 0; for (int j = 0; j < n; j++) rs += fabsl(A[(size_t)i * n + j]); lmax = std::max(lmax, rs); } lmin = lmax / cond; }
+    if (have_cond && cholesky_ld(A, n, L)) { LD cond = cond_estimate(A, L, n); LD lmax = 0; for (int i = 0; i < n; i++) { LD rs = 0; for (int j = 0; j < n; j++) rs += fabsl(A[(size_t)i * n + j]); lmax = std::max(lmax, rs); } lmin = lmax / cond; }
     LD xn = 0; for (LD v : xstar) xn = std::max(xn, fabsl(v));
     LD bn = 0; for (double v : s.b) bn = std::max<LD>(bn, fabs(v));
-    if (n <= 60) {
+    if (have_cond) {
       LD dist_tol = 16 * n * (4 * stated + 4 * (LD)tol_x * amax * n + 64 * n * DBL_EPSILON * (amax * xn * n + bn)) / lmin + (LD)tol_x + 1e-12L * xn;
       for (int i = 0; i < n; i++) if (fabsl((LD)x[i] - xstar[i]) > dist_tol) { bad = true; why = "component " + std::to_string(i) + " = " + jnum(x[i]) + " differs from the constrained minimiser " + jnum((double)xstar[i]) + " by more than " + jnum((double)dist_tol); break; }
     }
   }
   if (st) {
-    st->label(std::string("solver:") + kSolverNames[which]); st->label("class:" + s.cls);
+    st->label(std::string("solver:") + kSolverNames[which]); st->label("class:" + s.cls); if (!s.cls_extra.empty()) st->label(s.cls_extra);
     int sp = 0, sz = 0; for (LD v : xstar) { if (v > 0) sp++; else sz++; }
     if (sp > 0 && sz > 0) { Hasher h; h.add(which); for (double v : s.A) h.addd(v); for (double v : s.b) h.addd(v); st->nontriv(h.h); st->label("active_set:mixed"); }
     st->sample(r.json);
@@ -204,13 +230,15 @@ CaseResult body(Chooser& ch, Stats* st, bool small) {
   return r;
 }
 
-CaseResult body_small(Chooser& ch, Stats* st) { return body(ch, st, true); }
-CaseResult body_large(Chooser& ch, Stats* st) { return body(ch, st, false); }
+CaseResult body_small(Chooser& ch, Stats* st) { return body(ch, st, 0); }
+CaseResult body_large(Chooser& ch, Stats* st) { return body(ch, st, 1); }
+CaseResult body_dense(Chooser& ch, Stats* st) { return body(ch, st, 2); }
 
 }  // namespace
 
 int main(int argc, char** argv) {
   Options o = parse_options(argc, argv);
-  Prop a{"kkt_small", body_small, 4.0, 1, 1536, 60}, b{"kkt_large_sparse", body_large, 1.0, 1, 4096, 120};
-  return run_main(o, "C11", {a, b});
+  Prop a{"kkt_small", body_small, 4.0, 1, 1536, 60}, b{"kkt_large_sparse", body_large, 1.0, 1, 4096, 120},
+       d{"kkt_medium_dense", body_dense, 0.5, 1, 2048, 120};
+  return run_main(o, "C11", {a, b, d});
 }
